@@ -72,7 +72,7 @@ def judge(ctx, src, its):
         records.append(rec)
         ctx.evaluations += len(rec["routes"])
     ctx.log("Act T: TLC judges %d records (%d observations)" % (len(records), ctx.evaluations))
-    res = tlc.validate_traces("SATrace", "SATrace.cfg", records, chunk=100, parallel=14)
+    res = tlc.validate_traces("SATrace", "SATrace.cfg", records, chunk=100, parallel=14, canary_fields=["mf"])
     ctx.add_tv(res)
     classify(ctx, by_id, res["fails"])
     ctx.nontrivial = {it["id"] for it in its if it["set"]["pen"] or len(it["s"]) > len(it["q"])}
